@@ -3,7 +3,9 @@ import common as C
 import gen as G
 
 THEOREMS = ['unflatten_flatten', 'flatten_concatenates_in_order', 'missing_list_contributes_nothing',
-            'num_gives_lengths', 'local_index_counts_from_zero', 'offsets_are_running_sums', 'num_refines_spec', 'local_index_refines_spec', 'value_has_layout_length']
+            'num_gives_lengths', 'local_index_counts_from_zero', 'offsets_are_running_sums', 'num_refines_spec',
+            'local_index_refines_spec', 'value_has_layout_length', 'flatten_refines_spec_partial',
+            'flatten_axis1_refines_spec_partial', 'flatten_level_invariant', 'inner_offsets_cut_back']
 RULE = ('value-first random layouts x (num | localindex | flatten) x axis (positive, negative, some out of range); '
         'non-trivial = the input has >= 1 non-empty list and the operation succeeded; distinct by case text')
 ASSUMPTIONS = ['types containing unions are outside the specified fragment (skipped, counted)',
@@ -17,7 +19,7 @@ def cases(rng, tier):
     for i in range(n):
         a = G.gen_array(rng, depth=rng.choice([2, 3, 3, 4]), canonical_too=False,
                         type_kw=dict(allow_union=rng.random() < 0.1),
-                        enc_kw=dict(weird_empty=0.08))
+                        enc_kw=dict(weird_empty=0.08, strided=0.08))
         t = a['type']
         op = rng.choice(OPS)
         axis = G.pick_axis(rng, t)
